@@ -416,6 +416,9 @@ impl CaaTag<[u8]> {
     }
 
     fn check_slice(octets: &[u8]) -> Result<(), ParseError> {
+        if octets.len() > CharStr::MAX_LEN {
+            return Err(ParseError::form_error("CAA tag too long"));
+        }
         if octets.iter().any(|e| !e.is_ascii_alphanumeric()) {
             return Err(ParseError::form_error(
                 "CAA tag contains invalid character",
